@@ -1219,6 +1219,9 @@ class Declaration(Node):
             return False
         if not self.declarator.func.pointer:
             return False
+        if self.params is None:
+            # pointer to array: int (*m)[4]
+            return False
         return True
 
     def XXXget_indirect(self):
